@@ -323,4 +323,19 @@ theorem mavenCompare_ok {a b : List MavenElem} (ha : noSepStart a = true) (hb : 
       | none => exact ih has (by simpa [noSepStart] using hb.2)
       | some r => exact ⟨_, rfl⟩
 
+theorem noSep_of_elemOK {e : MavenElem} (h : elemOK e = true) : (mcat e != versionSeparator) = true := by
+  rcases elemOK_cases h with c | ⟨c, _⟩ <;> simp [c, versionSeparator]
+
+/-- Lists of the Maven-Central shape have no element text starting with a separator. -/
+theorem noSepStart_of_shape {l : List MavenElem} (hs : MavenShape l = true) : noSepStart l = true := by
+  cases l with
+  | nil => simp [MavenShape] at hs
+  | cons h t =>
+    simp only [MavenShape, Bool.and_eq_true] at hs
+    obtain ⟨⟨⟨_, hn⟩, hsh⟩, _⟩ := hs
+    have hall := allOK_of_shapeNums hsh
+    simp only [allOK, List.all_eq_true, Bool.and_eq_true] at hall
+    simp only [noSepStart, List.all_cons, Bool.and_eq_true, List.all_eq_true]
+    exact ⟨noSep_of_elemOK (elemOK_of_num hn), fun e he => noSep_of_elemOK (hall e he).1⟩
+
 end DepsDev.Proofs
